@@ -246,4 +246,87 @@ theorem reach_inv {cap script s} (ho : OwnedScript script) (h : Reach cap script
   | init => exact inv_init ho
   | step a _ hs ih => exact step_inv a ih hs
 
+/-! ### consequences of the invariant -/
+
+theorem nodup_of_proj {l : List Job} (h : ∀ i, (proj i l).Nodup) : l.Nodup := by
+  rw [List.nodup_iff_count]; intro a
+  have := List.nodup_iff_count.mp (h a.sender) a
+  rwa [proj, List.count_filter (by simp)] at this
+
+theorem mem_proj {i : Nat} {j : Job} {l : List Job} : j ∈ proj i l ↔ j ∈ l ∧ j.sender = i := by
+  simp [proj]
+
+/-- what sender `i` got accepted or dropped so far is a prefix of its script, in script order -/
+theorem Inv.handled_prefix {script s} (hi : Inv script s) (i : Nat) :
+    proj i (s.done ++ s.running ++ s.ch) ++ proj i s.dropped <+: script i := by
+  have := hi.cons i
+  exact ⟨optl (s.cur i) ++ s.pending i, by simpa [List.append_assoc] using this⟩
+
+theorem Inv.done_prefix {script s} (hi : Inv script s) (i : Nat) : proj i s.done <+: script i := by
+  have := hi.cons i
+  refine ⟨proj i s.running ++ proj i s.ch ++ proj i s.dropped ++ optl (s.cur i) ++ s.pending i, ?_⟩
+  simpa [proj_append, List.append_assoc] using this
+
+theorem Inv.started_prefix {script s} (hi : Inv script s) (i : Nat) : proj i (s.done ++ s.running) <+: script i := by
+  have := hi.cons i
+  refine ⟨proj i s.ch ++ proj i s.dropped ++ optl (s.cur i) ++ s.pending i, ?_⟩
+  simpa [proj_append, List.append_assoc] using this
+
+theorem Inv.nodup {script s} (hi : Inv script s) (hn : ∀ i, (script i).Nodup) :
+    (s.done ++ s.running ++ s.ch ++ s.dropped).Nodup := by
+  apply nodup_of_proj
+  intro i
+  have h := hi.handled_prefix i
+  rw [proj_append]
+  exact List.Nodup.sublist h.sublist (hn i)
+
+theorem Inv.no_phantom {script s} (hi : Inv script s) {j : Job} (h : j ∈ s.done ++ s.running ++ s.ch ++ s.dropped) :
+    j ∈ script j.sender := by
+  have hp := hi.handled_prefix j.sender
+  apply hp.subset
+  rw [← proj_append, mem_proj]
+  exact ⟨by simpa [List.append_assoc] using h, rfl⟩
+
+/-- no deadlock: while any work is left some worker atom (never a `Close` atom) is enabled -/
+theorem Inv.progress {cap script s} (hi : Inv script s)
+    (hwork : (∃ i, s.pending i ≠ [] ∨ s.cur i ≠ none) ∨ s.ch ≠ [] ∨ s.running ≠ []) :
+    ∃ a, a ≠ Act.closeFlag ∧ a ≠ Act.closeCh ∧ (step cap s a).isSome = true := by
+  cases hr : s.running with
+  | cons j rest => exact ⟨.finish, by simp, by simp, by simp [step, hr]⟩
+  | nil =>
+    have hne : s.exited = true → s.chClosed = true ∧ s.ch = [] := fun he => ⟨(hi.exitedQ he).1, (hi.exitedQ he).2.1⟩
+    cases hch : s.ch with
+    | cons j rest =>
+      have hex : s.exited = false := by
+        cases he : s.exited with
+        | false => rfl
+        | true => have := (hne he).2; rw [hch] at this; cases this
+      exact ⟨.recv, by simp, by simp, by simp [step, MB.idle, hr, hex, hch]⟩
+    | nil =>
+      rcases hwork with ⟨i, hw⟩ | hw | hw
+      · cases hc : s.cur i with
+        | some j =>
+          by_cases hcl : s.chClosed = true
+          · exact ⟨.send i, by simp, by simp, by simp [step, hc, hcl]⟩
+          · have hex : s.exited = false := by
+              cases he : s.exited with
+              | false => rfl
+              | true => exact absurd (hne he).1 hcl
+            by_cases h0 : cap = 0
+            · exact ⟨.send i, by simp, by simp, by simp [step, hc, hcl, hch, h0, MB.idle, hr, hex]⟩
+            · exact ⟨.send i, by simp, by simp, by
+                have : 0 < cap := Nat.pos_of_ne_zero h0
+                simp [step, hc, hcl, hch, this]⟩
+        | none =>
+          cases hp : s.pending i with
+          | nil => rcases hw with hw | hw
+                   · exact absurd hp hw
+                   · exact absurd hc hw
+          | cons j rest =>
+            by_cases hf : s.flag = true
+            · exact ⟨.check i, by simp, by simp, by simp [step, hc, hp, hf]⟩
+            · exact ⟨.check i, by simp, by simp, by simp [step, hc, hp, hf]⟩
+      · exact absurd hch hw
+      · exact absurd hr hw
+
 end FpgoVerif.C12
